@@ -114,6 +114,19 @@ func (wd *world) apply(e event) {
 		} else {
 			wd.nodes[wr.to].Peering().CloseLink(wd.nodes[wr.from].Identity().IP)
 		}
+	case "idleclean":
+		time.Sleep(25 * time.Hour)
+		for _, n := range wd.nodes {
+			n.RoutingTable().Clean()
+		}
+	case "gossip":
+		r, dst, via := wd.nodes[0], wd.nodes[1], wd.nodes[2]
+		hops := []m.SwitchHop{
+			{Router: r.Identity().IP, Delay: 5, ForwardLabel: 7},
+			{Router: via.Identity().IP, Delay: 5, ForwardLabel: 8, ReturnLabel: 9},
+			{Router: dst.Identity().IP, ReturnLabel: 10},
+		}
+		_, _ = r.RoutingTable().AddRoute(m.RoutingTableEntry{DstIP: dst.Identity().IP, NextHop: via.Identity().IP, Path: m.SwitchPath{Hops: hops}, Source: m.RouteSourceGossip, Expires: time.Now().Add(time.Hour)})
 	case "eof":
 		wr := wd.wires[e.a]
 		if e.b == 0 {
@@ -325,6 +338,10 @@ type scenario struct {
 	lite      int    // bit mask of lite routers
 	stub      int    // bit mask of stub routers
 	ids       string // identity family ("" = generic)
+	// extra one-off events: "idleclean" (25 h of idle time, then the routing-table
+	// cleaner on every router), "gossip" (router 0 learns a gossip route to its
+	// peer N1 via its peer N2, as the announce handler adds it in a triangle).
+	extras []string
 }
 
 func explore(t *testing.T, rep *kit.Report, env kit.Env, sc scenario) {
@@ -386,9 +403,25 @@ func explore(t *testing.T, rep *kit.Report, env kit.Env, sc scenario) {
 					}
 				}
 				faults := 0
+				done := map[string]bool{}
 				for _, e := range nd.path {
 					if e.kind != "dial" && e.kind != "pump" {
 						faults++
+					}
+					done[e.kind] = true
+				}
+				for _, x := range sc.extras {
+					if done[x] {
+						continue
+					}
+					switch x {
+					case "idleclean":
+						nextEvents = append(nextEvents, event{"idleclean", 0, 0})
+					case "gossip":
+						// only once router 0 has live links to both N1 and N2.
+						if l1, l2 := wd.nodes[0].Peering().GetLink(wd.nodes[1].Identity().IP), wd.nodes[0].Peering().GetLink(wd.nodes[2].Identity().IP); l1 != nil && l2 != nil {
+							nextEvents = append(nextEvents, event{"gossip", 0, 0})
+						}
 					}
 				}
 				for wi, wr := range wd.wires {
@@ -458,21 +491,22 @@ func explore(t *testing.T, rep *kit.Report, env kit.Env, sc scenario) {
 func TestC16(t *testing.T) {
 	env := kit.GetEnv()
 	rep := kit.NewReport("C16", env)
-	rep.Rule = "explicit-state BFS over event sequences on 2-3 real Peering instances (plain, lite and stub routers) with real link objects and running reader/writer workers (synctest bubble): dial(a,b) starts both real setup sides; pump(w) relays the pending handshake/link messages of one connection by one round (so two concurrent setups - incl. both ends dialling each other - interleave at message granularity); close (link.Close), mgrclose (Peering.CloseLink), eof (remote close) and break (I/O error on read and write) on either end; after every event the bubble is quiescent and the invariant is evaluated against the harness's own list of live link objects; states deduplicated on (per-connection progress and link states, registry content by link identity, peer routes); non-trivial = sequences longer than 3 events; second engine (registry-sched): 7 scenarios of 2-3 threads calling the real AddLink / Close->RemoveLink / CloseLink / lookups on virtual links to the same or different peers and labels, with the peering and m packages' sync operations as scheduling points, ALL schedules with <= 2 (thorough 3) preemptions, invariant when all threads are done"
+	rep.Rule = "explicit-state BFS over event sequences on 2-3 real Peering instances (plain, lite and stub routers) with real link objects and running reader/writer workers (synctest bubble): dial(a,b) starts both real setup sides; pump(w) relays the pending handshake/link messages of one connection by one round (so two concurrent setups - incl. both ends dialling each other - interleave at message granularity); close (link.Close), mgrclose (Peering.CloseLink), eof (remote close) and break (I/O error on read and write) on either end; in some scenarios once: 25 h of idle time followed by the routing-table cleaner on every router, and a gossip route to one peer via another peer added to the table (as the announce handler does in a triangle); after every event the bubble is quiescent and the invariant is evaluated against the harness's own list of live link objects; states deduplicated on (per-connection progress and link states, registry content by link identity, peer routes); non-trivial = sequences longer than 3 events; second engine (registry-sched): 7 scenarios of 2-3 threads calling the real AddLink / Close->RemoveLink / CloseLink / lookups on virtual links to the same or different peers and labels, with the peering and m packages' sync operations as scheduling points, ALL schedules with <= 2 (thorough 3) preemptions, invariant when all threads are done"
 	rep.Assumptions = []string{
 		"BFS engine: goroutine scheduling inside one event is resolved by bubble quiescence, events are atomic from the harness's point of view; finer interleavings of the registry's critical sections are explored by the second (controlled-scheduler) engine on virtual links",
 		"random fallback switch labels are abstracted in the state key (link identity is used instead of the label value)",
 	}
 	scs := []scenario{
-		{"two-routers/single-dial", 2, [][2]int{{0, 1}}, [2]int{9, 11}, [2]int{3000, 40000}, [2]int{3, 4}, 0, 0, ""},
-		{"two-routers/cross-connect", 2, [][2]int{{0, 1}, {1, 0}}, [2]int{11, 13}, [2]int{6000, 100000}, [2]int{2, 3}, 0, 0, ""},
-		{"three-routers/chain-and-cross", 3, [][2]int{{0, 1}, {1, 2}, {2, 1}}, [2]int{11, 13}, [2]int{6000, 100000}, [2]int{1, 2}, 0, 0, ""},
+		{"two-routers/single-dial", 2, [][2]int{{0, 1}}, [2]int{9, 11}, [2]int{3000, 40000}, [2]int{3, 4}, 0, 0, "", []string{"idleclean"}},
+		{"two-routers/cross-connect", 2, [][2]int{{0, 1}, {1, 0}}, [2]int{11, 13}, [2]int{6000, 100000}, [2]int{2, 3}, 0, 0, "", nil},
+		{"three-routers/chain-and-cross", 3, [][2]int{{0, 1}, {1, 2}, {2, 1}}, [2]int{11, 13}, [2]int{6000, 100000}, [2]int{1, 2}, 0, 0, "", nil},
 		// rarely used router flavours: a lite dialler / a lite listener, a stub router.
-		{"two-routers/single-dial/lite-listener", 2, [][2]int{{0, 1}}, [2]int{9, 11}, [2]int{3000, 40000}, [2]int{3, 4}, 2, 0, ""},
-		{"two-routers/single-dial/lite-dialler+stub-listener", 2, [][2]int{{0, 1}}, [2]int{9, 11}, [2]int{3000, 40000}, [2]int{3, 4}, 1, 2, ""},
+		{"two-routers/single-dial/lite-listener", 2, [][2]int{{0, 1}}, [2]int{9, 11}, [2]int{3000, 40000}, [2]int{3, 4}, 2, 0, "", []string{"idleclean"}},
+		{"two-routers/single-dial/lite-dialler+stub-listener", 2, [][2]int{{0, 1}}, [2]int{9, 11}, [2]int{3000, 40000}, [2]int{3, 4}, 1, 2, "", nil},
 		// label assignment fallbacks: two peers of N0 that derive the same switch label; a peer that derives none.
-		{"three-routers/star/colliding-derived-labels", 3, [][2]int{{1, 0}, {2, 0}}, [2]int{11, 13}, [2]int{6000, 100000}, [2]int{1, 2}, 0, 0, "colliding-labels"},
-		{"two-routers/cross-connect/no-derived-label", 2, [][2]int{{0, 1}, {1, 0}}, [2]int{11, 13}, [2]int{6000, 100000}, [2]int{1, 2}, 0, 0, "no-derived-label"},
+		{"three-routers/star/colliding-derived-labels", 3, [][2]int{{1, 0}, {2, 0}}, [2]int{11, 13}, [2]int{6000, 100000}, [2]int{1, 2}, 0, 0, "colliding-labels", nil},
+		{"three-routers/star/gossip-route-to-a-peer", 3, [][2]int{{1, 0}, {2, 0}}, [2]int{11, 13}, [2]int{6000, 100000}, [2]int{1, 2}, 0, 0, "", []string{"gossip"}},
+		{"two-routers/cross-connect/no-derived-label", 2, [][2]int{{0, 1}, {1, 0}}, [2]int{11, 13}, [2]int{6000, 100000}, [2]int{1, 2}, 0, 0, "no-derived-label", nil},
 	}
 	for _, sc := range scs {
 		explore(t, rep, env, sc)
